@@ -103,6 +103,11 @@ def check_matches(res, case, engine, lcres, compact):
     used = set()
     ok = True
     exact_state = True
+    if lcres.get("runaway"):
+        res.violations.append({"clause": "matches never reuse a cell of an earlier match: the search yielded more matches "
+                                         "than the matrix has cells (the same match is found again and again)",
+                               "engine": engine, "case": case})
+        return False
     for call, ms in zip(case["calls"], lcres["calls"]):
         if call["restart"]:
             used = set()            # a restarted search really starts again (the matrix is positivized)
